@@ -306,4 +306,144 @@ theorem wallDistParWith_unfold {search : Nat → Nat → List (Elem α) → Opti
     · intro i _ _
       simp
 
+/-! ## the ghost update -/
+
+theorem sum_mapIdx_le {β : Type} (l : List β) (f : Nat → β → Nat) (g : β → Nat) (h : ∀ i x, f i x ≤ g x) :
+    (l.mapIdx f).sum ≤ (l.map g).sum := by
+  induction l generalizing f with
+  | nil => simp
+  | cons x xs ih =>
+    simp only [List.mapIdx_cons, List.sum_cons, List.map_cons]
+    have := ih (fun i => f (i + 1)) (fun i y => h (i + 1) y)
+    have := h 0 x
+    omega
+
+/-- the entry of `gwOf` that belongs to a stored vertex -/
+def gnodeOf (g : V3 α → α) (big : α) (r : Nat) (nd : PNode α) : GNode α :=
+  ⟨nd.glob, nd.part, [if nd.part == (r : Int) then g nd.xyz else big]⟩
+
+theorem gwOf_getElem (g : V3 α → α) (big : α) (w : World (PRank α)) (r : Nat) (hr : r < w.length)
+    (h : r < (gwOf g big w).length) : (gwOf g big w)[r] = w[r].nodes.map (gnodeOf g big r) := by
+  simp [gwOf, gnodeOf]
+
+theorem gwOf_length (g : V3 α → α) (big : α) (w : World (PRank α)) : (gwOf g big w).length = w.length := by
+  simp [gwOf]
+
+theorem gwOf_getD (g : V3 α → α) (big : α) (w : World (PRank α)) (r : Nat) (hr : r < w.length) :
+    (gwOf g big w).getD r [] = w[r].nodes.map (gnodeOf g big r) := by
+  rw [getD_lt _ _ (by rw [gwOf_length]; exact hr), gwOf_getElem g big w r hr]
+
+theorem getD_prank (w : World (PRank α)) (r : Nat) (hr : r < w.length) :
+    w.getD r ⟨[], [], [], []⟩ = w[r] := getD_lt _ _ hr
+
+/-- **the parallel wall distance, for any search that folds `op` over its chunk**: the routine completes on every
+    rank and every stored vertex holds the fold of `op` over ALL wall elements of the world — evaluated at its own
+    coordinates when it is owned, at its owner's copy when it is a ghost -/
+theorem wallDistParWith_spec {search : Nat → Nat → List (Elem α) → Option (V3 α → α → α)} {op : α → α → α}
+    {kv : V3 α → Elem α → α} (hs : SearchFolds search op kv) (big : α) (maxN : Int) (twod : Bool) (dict : RDict)
+    (w : World (PRank α)) (hw : WorldOk w) :
+    ∃ res : World (List α), wallDistParWith search big maxN twod dict w = some res ∧ res.length = w.length ∧
+      ∀ r (hr : r < w.length), (res.getD r []).length = w[r].nodes.length ∧
+        ∀ i (hi : i < w[r].nodes.length),
+          (w[r].nodes[i].part = (r : Int) →
+            (res.getD r [])[i]? = some (wallFold op kv big twod dict w w[r].nodes[i].xyz)) ∧
+          (w[r].nodes[i].part ≠ (r : Int) →
+            ∀ od ∈ (w.getD w[r].nodes[i].part.toNat ⟨[], [], [], []⟩).nodes, od.glob = w[r].nodes[i].glob →
+              (res.getD r [])[i]? = some (wallFold op kv big twod dict w od.xyz)) := by
+  let W := wallFold op kv big twod dict w
+  have hglen := gwOf_length W big w
+  have hnd : ∀ nodes ∈ gwOf W big w, (nodes.map (·.glob)).Nodup := by
+    intro nodes hn
+    obtain ⟨r, hr, rfl⟩ := List.mem_iff_getElem.mp hn
+    have hr' : r < w.length := by rwa [hglen] at hr
+    rw [gwOf_getElem W big w r hr' hr, List.map_map]
+    exact hw.nodup _ (List.getElem_mem hr')
+  have hown : ∀ r (hr : r < (gwOf W big w).length), ∀ nd ∈ (gwOf W big w)[r], nd.part ≠ (r : Int) →
+      0 ≤ nd.part ∧ nd.part.toNat < (gwOf W big w).length ∧
+      ∃ od ∈ (gwOf W big w).getD nd.part.toNat [], od.glob = nd.glob ∧ od.vals.length = 1 := by
+    intro r hr nd hmem hp
+    have hr' : r < w.length := by rwa [hglen] at hr
+    rw [gwOf_getElem W big w r hr' hr] at hmem
+    obtain ⟨pn, hpn, rfl⟩ := List.mem_map.mp hmem
+    obtain ⟨h0, h1, od, hod, hg, _⟩ := hw.ghost r hr' pn hpn hp
+    refine ⟨h0, by rw [hglen]; exact h1, gnodeOf W big pn.part.toNat od, ?_, hg, rfl⟩
+    show gnodeOf W big pn.part.toNat od ∈ (gwOf W big w).getD pn.part.toNat []
+    rw [gwOf_getD W big w _ h1]
+    rw [getD_prank w _ h1] at hod
+    exact List.mem_map.mpr ⟨od, hod, rfl⟩
+  have hsz : ∀ r (hr : r < (gwOf W big w).length),
+      ((max 1 1 : Nat) : Int) * (nGhosts r (gwOf W big w)[r] : Int) ≤ Comm.INT_MAX ∧
+      ((max 1 1 : Nat) : Int) * (nRequests (gwOf W big w) r : Int) ≤ Comm.INT_MAX := by
+    intro r hr
+    have hr' : r < w.length := by rwa [hglen] at hr
+    have hsize := hw.size
+    constructor
+    · have h1 : nGhosts r (gwOf W big w)[r] ≤ w[r].nodes.length := by
+        rw [gwOf_getElem W big w r hr' hr]
+        unfold nGhosts
+        refine Nat.le_trans (List.length_filter_le _ _) ?_
+        simp
+      have h2 : w[r].nodes.length ≤ (w.map fun r => r.nodes.length).sum :=
+        sum_le_of_mem (List.mem_map.mpr ⟨w[r], List.getElem_mem hr', rfl⟩)
+      simp only [Nat.max_self, Nat.cast_one, one_mul]
+      omega
+    · have h1 : nRequests (gwOf W big w) r ≤ (w.map fun r => r.nodes.length).sum := by
+        unfold nRequests gwOf
+        rw [List.mapIdx_mapIdx]
+        refine sum_mapIdx_le w _ _ ?_
+        intro i x
+        simp only [Function.comp_def, ghostsTo]
+        refine Nat.le_trans (List.length_filter_le _ _) ?_
+        simp
+      simp only [Nat.max_self, Nat.cast_one, one_mul]
+      omega
+  have hg := Refine.Props.C06Ghost.ghostRefresh_spec RefType.dbl rfl 1 (gwOf W big w) hnd hown hsz
+  refine ⟨_, by rw [wallDistParWith_unfold hs big maxN twod dict w hw, hg]; rfl, by simp [gwOf], ?_⟩
+  intro r hr
+  have hrg : r < (gwOf W big w).length := by rw [hglen]; exact hr
+  have hrow : (List.map (fun nodes => List.map (fun nd => nd.vals.getD 0 default) nodes)
+        ((gwOf W big w).mapIdx fun r nodes => nodes.map fun nd =>
+          if nd.part = (r : Int) then nd else { nd with vals := ownerVals (gwOf W big w) nd })).getD r []
+      = w[r].nodes.map fun pn =>
+          if pn.part = (r : Int) then W pn.xyz
+          else (ownerVals (gwOf W big w) (gnodeOf W big r pn)).getD 0 default := by
+    rw [getD_lt _ _ (by simpa using hrg)]
+    simp only [List.getElem_map, List.getElem_mapIdx, gwOf_getElem W big w r hr hrg, List.map_map]
+    apply List.map_congr_left
+    intro pn _
+    by_cases hp : pn.part = (r : Int)
+    · simp [gnodeOf, hp]
+    · simp [gnodeOf, hp]
+  rw [hrow]
+  refine ⟨by simp, ?_⟩
+  intro i hi
+  simp only [List.getElem?_map, List.getElem?_eq_getElem hi, Option.map_some]
+  constructor
+  · intro hp
+    rw [if_pos hp]
+  · intro hp od hod hgl
+    rw [if_neg hp]
+    obtain ⟨_, h1, od', hod', hg', hpart'⟩ := hw.ghost r hr _ (List.getElem_mem hi) hp
+    rw [getD_prank w _ h1] at hod hod'
+    have hnodup := hw.nodup _ (List.getElem_mem h1)
+    have hsame : od = od' := List.inj_on_of_nodup_map hnodup hod hod' (by rw [hgl, hg'])
+    subst hsame
+    have hmem : gnodeOf W big w[r].nodes[i].part.toNat od ∈ (gwOf W big w).getD w[r].nodes[i].part.toNat [] := by
+      rw [gwOf_getD W big w _ h1]
+      exact List.mem_map.mpr ⟨od, hod, rfl⟩
+    have hnd' : (((gwOf W big w).getD w[r].nodes[i].part.toNat []).map (·.glob)).Nodup := by
+      rw [gwOf_getD W big w _ h1, List.map_map]
+      exact hnodup
+    have hl := lookupVals_of_mem hnd' hmem
+    have hgg : (gnodeOf W big w[r].nodes[i].part.toNat od).glob = (gnodeOf W big r w[r].nodes[i]).glob := hgl
+    unfold ownerVals
+    have hpp : (gnodeOf W big r w[r].nodes[i]).part = w[r].nodes[i].part := rfl
+    rw [hpp, ← hgg, hl]
+    have h0 := (hw.ghost r hr _ (List.getElem_mem hi) hp).1
+    have hown' : (od.part == ((w[r].nodes[i].part.toNat : Nat) : Int)) = true := by
+      rw [Int.toNat_of_nonneg h0, hpart']
+      simp
+    have hmax : max w[r].nodes[i].part 0 = w[r].nodes[i].part := max_eq_left h0
+    simp [gnodeOf, hmax, hpart', W]
+
 end Refine.Lemmas.PhysDist
